@@ -92,6 +92,72 @@ Proof.
   - intros []; reflexivity.
 Qed.
 
+(** * The table with directories *)
+
+Lemma open_sees_falls_back have d : open_sees true have d = have.
+Proof. unfold open_sees. destruct (dopt_is_instance d); reflexivity. Qed.
+
+(** with the fallback the Directory options are irrelevant to every decision *)
+Lemma dir_irrelevant : forall memory ops have,
+  drun true memory have ops = drun true memory have (map undir ops).
+Proof.
+  intros memory ops. induction ops as [|o ops IH]; intros have; [reflexivity |].
+  destruct o as [ow d | lo d |]; simpl.
+  - destruct (create_decision have ow); simpl; rewrite IH; reflexivity.
+  - rewrite !open_sees_falls_back. rewrite IH. reflexivity.
+  - rewrite IH. reflexivity.
+Qed.
+
+(** on disk closing the handles changes nothing *)
+Lemma dir_close_on_disk : forall fb have ops,
+  drun fb false have (DCloseAll :: ops) = Proceeds :: drun fb false have ops.
+Proof. intros. simpl. rewrite andb_true_r. reflexivity. Qed.
+
+(** without Directory options and without closing: the plain table, in memory and on disk,
+    with and without the fallback *)
+Lemma dir_plain_table : forall fb memory ops have,
+  drun fb memory have (map dop_of_lop ops) = lrun have ops.
+Proof.
+  intros fb memory ops. induction ops as [|o ops IH]; intros have; [reflexivity |].
+  destruct o as [ow | lo]; simpl.
+  - destruct (create_decision have ow); simpl; rewrite IH; reflexivity.
+  - rewrite IH. reflexivity.
+Qed.
+
+(** an instance in memory: the rules hold while a handle is open; closing forgets the database *)
+Lemma dir_memory_rules : forall fb have ow d1 d2 d3 d4 d5,
+  drun fb true have [DCreate ow d1; DCreate false d2; DCreate true d3; DOpen true DUnset; DCloseAll;
+                     DOpen true d4; DCreate false d5]
+  = [create_decision have ow; Refused; Proceeds; Proceeds; Proceeds; Refused; Proceeds].
+Proof. intros [] [] [] d1 d2 d3 [| |k] d5; reflexivity. Qed.
+
+(** the table with the fallback satisfies the property for every sequence of operations, every
+    choice of Directory options, on disk and in memory *)
+Lemma dir_spec_sound : forall memory ops have seen,
+  (have = true -> seen = true) ->
+  dlocal_ok memory have seen ops (map decision_code (drun true memory have ops)) = true.
+Proof.
+  intros memory ops. induction ops as [|o ops IH]; intros have seen Hs; [reflexivity |].
+  destruct o as [ow d | lo d |]; simpl.
+  - destruct have, ow; simpl.
+    all: try rewrite (Hs eq_refl); simpl; rewrite ?orb_true_r; apply IH; auto.
+  - rewrite open_sees_falls_back.
+    destruct have, lo; simpl.
+    all: try rewrite (Hs eq_refl); simpl.
+    all: try (destruct seen; simpl); rewrite ?orb_true_r; apply IH; auto; try discriminate.
+  - apply IH. destruct memory; simpl; rewrite ?andb_false_r, ?andb_true_r; [discriminate | exact Hs].
+Qed.
+
+(** before the repair of Open: a database created with a Directory option other than the
+    instance's directory is not found by a local-only Open with the SAME option, which the
+    property rejects; with the repair it is found.  Regression witness. *)
+Lemma dir_refuted_no_fallback : forall memory ow k,
+  let ops := [DCreate ow (DOther k); DOpen true (DOther k)] in
+  drun false memory false ops = [Proceeds; Refused] /\
+  dlocal_ok memory false false ops (map decision_code (drun false memory false ops)) = false /\
+  drun true memory false ops = [Proceeds; Proceeds].
+Proof. intros [] [] k; repeat split; reflexivity. Qed.
+
 Section AddressProofs.
   (** the mechanism switch of address.IsValid: every lemma of this section that mentions
       [rd] holds for both values (the code as it stands and the pinned commit) *)
